@@ -1,7 +1,11 @@
 """C13 Key IDs are the spec's hash of the key's PASERK text, stable, domain-separated."""
 from . import c03
+from .. import deploy
 LEVEL = "model_checking"
 
 
 def run(out, tier, seed):
     c03.run(out, tier, seed, prop="C13")
+    # key ids in use: the deployment model (Deploy.tla) selects keys by the id in the unverified footer; its behaviours
+    # are replayed through the real crates with a store indexed by the library's KeyId (Ord / Hash / Display / FromStr)
+    deploy.run(out, tier, seed, "c13")
